@@ -179,3 +179,125 @@ def recognition(unit):
         if taken != expect:
             bad.append({"buffer_starts_with": data[:9].decode("latin1").replace("\0", "\\0"), "handed_to_bundle_ring_length": taken, "expected": expect})
     return bad
+
+
+# ------------------------------------------------------------------------------------------------------------------ writer
+BUF, ELB = 1 << 20, 1 << 24
+
+
+def write_bundle(unit, sizes, cap):
+    """rtosc_bundle(buffer, cap, TIMETAG, n, e0, e1, ...) interpreted: the elements are byte runs of the given sizes (element k
+    filled with 0x40+k), rtosc_message_length answers with those sizes (the measuring of well-formed elements is decided
+    elsewhere), the variadic arguments are handed out in order after each va_start.
+    -> (returned value, bytes of the destination up to cap, stores beyond cap)"""
+    fn = unit.function("rtosc_bundle")
+    ps = unit.params(fn)
+    buf = {}
+    oob = []
+    st = {"va": 0}
+    holder = {}
+
+    def elem_of(p, n):
+        k, off = divmod(p - ELB, 0x1000)
+        if p < ELB or k >= len(sizes):
+            raise FD.Unknown("pointer %#x is no element" % p, n)
+        return k, off
+
+    def deref(a, n):
+        if BUF <= a < BUF + 0x10000:
+            return buf.get(a - BUF, 0)
+        k, off = elem_of(a, n)
+        if off < sizes[k]:
+            return 0x40 + k
+        raise FD.Unknown("read behind element %d" % k, n)
+
+    def store(a, v, n):
+        if BUF <= a < BUF + 0x10000:
+            if a - BUF >= cap:
+                oob.append(a - BUF)
+            buf[a - BUF] = v & 0xff
+            return
+        raise FD.Unknown("store at %#x" % a, n)
+
+    def hook(n, ev):
+        k = n.get("kind")
+        if k == "VAArgExpr":
+            i = st["va"]
+            st["va"] += 1
+            if i >= len(sizes):
+                raise FD.Unknown("more va_arg than elements", n)
+            return ELB + i * 0x1000
+        if k == "CallExpr" and A.callee_name(n) in ("__builtin_va_start", "va_start"):
+            st["va"] = 0
+            return 0
+        if k == "CallExpr" and A.callee_name(n) in ("__builtin_va_end", "va_end", "__assert_fail"):
+            return 0
+        if k == "DeclRefExpr" and "va_list" in (A.qtype(n) or "") + ((n.get("referencedDecl") or {}).get("type", {}) or {}).get("qualType", ""):
+            return ("va",)
+        if k == "DeclRefExpr" and "__va_list_tag" in (A.qtype(n) or ""):
+            return ("va",)
+        if k == "StringLiteral":
+            return A.string_literal(n)
+        if k == "ImplicitCastExpr" and n.get("castKind") == "ArrayToPointerDecay":
+            inner = A.kids(n)[0]
+            if A.string_literal(inner) is not None:
+                return A.string_literal(inner)
+            if "__va_list_tag" in (A.qtype(inner) or "") or "va_list" in (A.qtype(inner) or ""):
+                return ("va",)
+        return NotImplemented
+
+    def call(nm, vals, n):
+        ev = holder["ev"]
+        if nm in ("rtosc_message_length",):
+            k_, off = elem_of(vals[0], n)
+            if off:
+                raise FD.Unknown("length of the middle of an element", n)
+            return sizes[k_]
+        if nm in ("memset", "__builtin_memset", "__builtin___memset_chk"):
+            for i in range(min(vals[2], 0x8000)):
+                store(vals[0] + i, vals[1], n)
+            return vals[0]
+        if nm in ("memcpy", "memmove", "__builtin_memcpy", "__builtin___memcpy_chk"):
+            for i in range(vals[2]):
+                src = vals[1]
+                store(vals[0] + i, (ord(src[i]) if i < len(src) else 0) if isinstance(src, str) else deref(src + i, n), n)
+            return vals[0]
+        if nm in ("strcpy", "__builtin_strcpy", "__builtin___strcpy_chk"):
+            s_ = vals[1] if isinstance(vals[1], str) else None
+            if s_ is None:
+                raise FD.Unknown("strcpy from memory", n)
+            for i, c in enumerate(s_ + "\0"):
+                store(vals[0] + i, ord(c), n)
+            return vals[0]
+        if nm in ("strlen",) and isinstance(vals[0], str):
+            return len(vals[0])
+        fns_ = [f_ for f_ in unit.functions.get(nm, []) if unit.body(f_) is not None]
+        if len(fns_) == 1:
+            return ev.call_function(unit, fns_[0], vals)
+        raise FD.Unknown("call to %s" % nm, n)
+    env = {}
+    # (buffer, capacity, time tag, number of elements, ...): roles by type, the two 64-bit integers by name / order
+    wide = [p for p in ps if (A.qtype(p) or "").replace(" ", "") not in ("char*", "int")]
+    for p in ps:
+        t = (A.qtype(p) or "").replace(" ", "")
+        if t == "char*":
+            env[p["id"]] = BUF
+        elif t == "int":
+            env[p["id"]] = len(sizes)
+    if len(wide) != 2:
+        raise FD.Unknown("rtosc_bundle: parameters (buffer, capacity, time tag, count) not recognised", fn)
+    tt_p = [p for p in wide if "uint64" in (A.qtype(p) or "") or p.get("name") in ("tt", "timetag", "time")]
+    tt_p = tt_p[0] if len(tt_p) == 1 else wide[1]
+    for p in wide:
+        env[p["id"]] = TIMETAG if p is tt_p else cap
+    ev = FD.Eval(env=env, deref=deref, store=store, node_hook=hook, call=call, max_steps=60000)
+    holder["ev"] = ev
+    r = ev.call_function(unit, fn, [env[p["id"]] for p in ps])
+    return r, bytes(buf.get(i, 0) for i in range(cap)), oob
+
+
+def expected_bundle(sizes):
+    b = bytearray(b"#bundle\0") + bytearray(TIMETAG.to_bytes(8, "big"))
+    for k, s in enumerate(sizes):
+        b += s.to_bytes(4, "big") + bytes([0x40 + k]) * s
+    return bytes(b)
